@@ -89,7 +89,7 @@ def tree_units(inter, ties, seed):
         u.append(u[-1] if i in ties else u[-1] + g[i])
     tips = [a for a, e in zip(u, inter) if e == "s"]
     br = [a for a, e in zip(u, inter) if e == "c"]
-    origin = 64
+    origin = 128  # >= 2.0: never 1.0, where relative and absolute times coincide
     while origin < br[-1] + 10:
         origin *= 2
     return {"tips": tips, "br": br, "origin": origin, "distinct": sorted(set(u))}
@@ -247,6 +247,8 @@ def patterns(m, tier):
             for mn in menus:
                 for rm in (0.0, 0.3, 1.0):
                     for inner in itertools.product((0.0, 0.3), repeat=len(free)):
+                        if tier == "quick" and m == 3 and rm == 1.0 and any(inner):
+                            continue  # quick: rho = 1 at the present only with rho = 0 elsewhere
                         if len(runs) == m == 3 and mn == "B":
                             # documented thinning of menu B at m = 3
                             if rm == 1.0 and any(inner):
@@ -259,9 +261,30 @@ def patterns(m, tier):
                         rho[-1] = rm
                         out.append({"runs": runs, "menu": mn, "rho": rho})
         return out
-    # m >= 4: a fixed family of merge patterns and rho vectors
+    # m >= 4: a fixed family of merge patterns and rho vectors (16 for m = 4, 8 for m >= 5)
     ones = [1] * m
     alt = [0.3 if i % 2 == 0 else 0.0 for i in range(m - 1)]
+    pairs = [2] * (m // 2) + ([1] if m % 2 else [])
+
+    def merged_rho(runs, rm, inner):
+        rho = [0.0] * m
+        pos = 0
+        for ln in runs[:-1]:
+            pos += ln
+            rho[pos - 1] = inner
+        rho[-1] = rm
+        return rho
+
+    if m >= 5:
+        out.append({"runs": ones, "menu": "A", "rho": [0.0] * (m - 1) + [0.3]})
+        out.append({"runs": ones, "menu": "A", "rho": alt + [0.0]})
+        out.append({"runs": ones, "menu": "A", "rho": [0.0] * (m - 1) + [1.0]})
+        out.append({"runs": ones, "menu": "B", "rho": [0.3] * m})
+        out.append({"runs": [m], "menu": "A", "rho": [0.0] * (m - 1) + [0.3]})
+        out.append({"runs": [2] + [1] * (m - 2), "menu": "A", "rho": merged_rho([2] + [1] * (m - 2), 0.3, 0.0)})
+        out.append({"runs": [1] * (m - 2) + [2], "menu": "A", "rho": merged_rho([1] * (m - 2) + [2], 0.0, 0.3)})
+        out.append({"runs": pairs, "menu": "A", "rho": merged_rho(pairs, 0.3, 0.3)})
+        return out
     for mn in ("A", "B"):
         out.append({"runs": ones, "menu": mn, "rho": [0.0] * (m - 1) + [0.3]})
         out.append({"runs": ones, "menu": mn, "rho": alt + [0.0]})
@@ -269,16 +292,9 @@ def patterns(m, tier):
     out.append({"runs": ones, "menu": "A", "rho": [0.0] * (m - 1) + [1.0]})
     out.append({"runs": [m], "menu": "A", "rho": [0.0] * m})
     out.append({"runs": [m], "menu": "A", "rho": [0.0] * (m - 1) + [0.3]})
-    pairs = [2] * (m // 2) + ([1] if m % 2 else [])
     for runs in ([2] + [1] * (m - 2), [1] * (m - 2) + [2], pairs):
         for rm, inner in ((0.3, 0.0), (0.0, 0.3)):
-            rho = [0.0] * m
-            pos = 0
-            for ln in runs[:-1]:
-                pos += ln
-                rho[pos - 1] = inner
-            rho[-1] = rm
-            out.append({"runs": runs, "menu": "A", "rho": rho})
+            out.append({"runs": runs, "menu": "A", "rho": merged_rho(runs, rm, inner)})
     return out
 
 
@@ -291,15 +307,22 @@ def option_sets(m, placement, tier):
         modes = ["none", "abs", "rel"]
     else:
         modes = ["abs", "rel"]
-    slim = m >= 5
+    if m >= 5:
+        # reduced family for many epochs: every option value occurs, in 8 combinations
+        combos = [(True, False, modes[0], "value", "full"), (False, False, modes[0], "value", "full"),
+                  (True, True, modes[0], "value", "full"), (False, True, modes[0], "value", "full"),
+                  (True, False, modes[0], "edge", "full"), (False, True, modes[-1], "value", "full"),
+                  (True, False, modes[-1], "edge", "full"), (True, False, modes[0], "value", "short")]
+        seen = []
+        for c in combos:
+            if c not in seen:
+                seen.append(c)
+        return [{"survival": a, "removal": b, "times": c, "origin": d, "rho_form": e, "order": "id"}
+                for a, b, c, d, e in seen]
     for surv in (True, False):
         for rem in (False, True):
             for tm in modes:
                 for om in ("value", "edge"):
-                    if slim and tm == "rel" and om == "edge" and not (surv and not rem):
-                        continue
-                    if slim and (tm, om) != (modes[0], "value") and surv != (not rem):
-                        continue
                     out.append({"survival": surv, "removal": rem, "times": tm, "origin": om,
                                 "rho_form": "full", "order": "id"})
     for surv in (True, False):
@@ -531,7 +554,8 @@ def check_item(item):
                 if key in seen:
                     continue
                 seen.add(key)
-                out.append((name, detail, s, {"part": "grid", "item": item, "pattern": pattern, "opt": opt}))
+                out.append((name, detail, s, {"part": "grid", "item": item, "pattern": pattern, "opt": opt,
+                                              "geo": list(geo)}))
     return out, nev, ncase, skipped, maxdev, len(pats)
 
 
@@ -620,8 +644,7 @@ def bdsk_json_case(item, combo, geo=None):
     surv = True if combo["survival"] == "absent" else combo["survival"]
     rel = False if combo["relative_times"] == "absent" else combo["relative_times"]
     edge = False if combo["origin_is_root_edge"] == "absent" else combo["origin_is_root_edge"]
-    sig = {"times": combo["times"], "relative_key": combo["relative_times"] != "absent",
-           "removal": combo["removal_probability"] != "absent", "multi": m > 1}
+    sig = {"options": ",".join(f"{k}={combo[k]}" for k in JSON_OPTS if combo[k] != "absent"), "multi": m > 1}
     tspec, labels, order = tree_spec(item["inter"], item["rule"], tips, br)
     spec = {"id": "bdsk", "type": "BDSKModel", "tree_model": "tree",
             "R": P("R", R), "delta": P("delta", delta), "s": P("s", s),
@@ -752,21 +775,31 @@ def bd_const_case(item, pat, how, geo=None):
 
 
 def check_json_item(item):
-    out = []
+    """full cross product of the optional keys; of the failing combinations only the minimal
+    ones are reported (no failing combination with a subset of its keys, same values)"""
     nev = 0
-    seen = set()
     geo = json_geometry(item)
     keys = list(JSON_OPTS)
+    fails = []
     for vals in itertools.product(*[JSON_OPTS[k] for k in keys]):
         combo = dict(zip(keys, vals))
         bad, sig, k = bdsk_json_case(item, combo, geo)
         nev += k
         for name, detail in bad:
-            s = dict(sig, check=name)
-            if jdump(s) in seen:
+            fails.append((name, detail, dict(sig, check=name), combo))
+    out = []
+    for name, detail, s, combo in fails:
+        present = {k: v for k, v in combo.items() if v != "absent"}
+        dominated = False
+        for name2, _, _, combo2 in fails:
+            if name2 != name or combo2 is combo:
                 continue
-            seen.add(jdump(s))
-            out.append((name, detail, s, {"part": "json", "item": item, "combo": combo}))
+            present2 = {k: v for k, v in combo2.items() if v != "absent"}
+            if len(present2) < len(present) and all(present.get(k) == v for k, v in present2.items()):
+                dominated = True
+                break
+        if not dominated:
+            out.append((name, detail, s, {"part": "json", "item": item, "combo": combo, "geo": list(geo)}))
     return out, nev
 
 
@@ -787,7 +820,8 @@ def check_bd_item(item):
                 if jdump(s) in seen:
                     continue
                 seen.add(jdump(s))
-                out.append((name, detail, s, {"part": "bd", "item": item, "pattern": pat, "how": how}))
+                out.append((name, detail, s, {"part": "bd", "item": item, "pattern": pat, "how": how,
+                                              "geo": list(geo)}))
     return out, nev
 
 
@@ -845,6 +879,7 @@ def run(run):
     distinct = 0
     per_m = {}
     parts = {"grid": 0, "json": 0, "bd": 0}
+    found = []
     for chunk in res:
         for kind, it, out, nev, ncase, skip, dev, npat in chunk:
             evals += nev
@@ -857,7 +892,11 @@ def run(run):
                 if "cs" in it["inter"] or it["m"] >= 3:
                     distinct += npat
             for name, detail, sig, case in out:
-                run.violation(case, f"{name}: {detail}", sig)
+                size = (it.get("m", 1), it["n"], len(it["ties"]), len(jdump(case)))
+                found.append((size, case, f"{name}: {detail}", sig))
+    found.sort(key=lambda f: f[0])  # smallest failing case of each signature first
+    for _, case, detail, sig in found:
+        run.violation(case, detail, sig)
     cov = {
         "evaluations": evals,
         "distinct_nontrivial": distinct,
@@ -895,7 +934,9 @@ def run(run):
         "a tip lying on a boundary with rho > 0 is rho-sampled",
         "excluded as undefined: fully contemporaneous trees with rho = 0 at the present; removal probability "
         "together with rho-sampled tips before the present; rho = 1 at an internal boundary; no origin",
-        "m >= 4: fixed family of 16 rate/rho patterns; m >= 5: reduced option sets and no partial tie patterns for n = 4",
+        "m <= 3: every merge pattern; m = 4: fixed family of 16 rate/rho patterns; m >= 5: 8 patterns x 8 option "
+        "combinations (every option value occurs) and, for n = 4, no partial tie patterns; quick tier: no partial "
+        "tie patterns for n = 4 at m = 3, rho = 1 at the present only with rho = 0 elsewhere at m = 3",
         "JSON part: removal-probability conversions use torchtree's own epidemiology_to_birth_death (plumbing only)",
     ])
 
@@ -912,15 +953,16 @@ def _anchor_parent(run):
 def replay(case):
     part = case["part"]
     out = []
+    geo = tuple(case["geo"]) if case.get("geo") else None  # explicit tips, branchings, origin, boundaries
     if part == "grid":
-        res = eval_case(case["item"], case["pattern"], case["opt"])
+        res = eval_case(case["item"], case["pattern"], case["opt"], geo)
         if res is None:
             return []
         bad, sig, _, _ = res
     elif part == "json":
-        bad, sig, _ = bdsk_json_case(case["item"], case["combo"])
+        bad, sig, _ = bdsk_json_case(case["item"], case["combo"], geo)
     else:
-        res = bd_const_case(case["item"], case["pattern"], case["how"])
+        res = bd_const_case(case["item"], case["pattern"], case["how"], geo)
         if res is None:
             return []
         bad, sig, _ = res
